@@ -264,16 +264,17 @@ func walkStruct(st *types.Struct, owner string, depth int, visit func(owner stri
 
 // Renames maps renamed entities back to their inventory names.
 type Renames struct {
-	Funcs    map[string]*types.Func     // "pkg\tOldName" -> renamed function
-	Fields   map[string]*types.Var      // "pkg\tType\toldField" -> renamed field
-	Consts   map[string]*types.Const    // "pkg\toldName" -> renamed constant
-	Types    map[string]*types.TypeName // "pkg\toldName" -> renamed type
-	CanonT   map[*types.TypeName]string // renamed type -> old name
-	CanonF   map[*types.Func]string     // renamed function -> old simple name (method or function name)
-	CanonV   map[*types.Var]string      // renamed field -> old name
-	NewNames map[string]bool            // "pkg\tRecv.new" keys that are renames (not new helpers)
-	RecvOld  map[string]string          // "pkg\tNewTypeName" -> inventory name of the type
-	Notes    []string
+	Funcs     map[string]*types.Func     // "pkg\tOldName" -> renamed function
+	Fields    map[string]*types.Var      // "pkg\tType\toldField" -> renamed field
+	Consts    map[string]*types.Const    // "pkg\toldName" -> renamed constant
+	Types     map[string]*types.TypeName // "pkg\toldName" -> renamed type
+	CanonT    map[*types.TypeName]string // renamed type -> old name
+	CanonF    map[*types.Func]string     // renamed function -> old simple name (method or function name)
+	CanonV    map[*types.Var]string      // renamed field -> old name
+	NewNames  map[string]bool            // "pkg\tRecv.new" keys that are renames (not new helpers)
+	CanonFull map[*types.Func]string     // function that used to be a method (or the reverse) -> its inventory display name
+	RecvOld   map[string]string          // "pkg\tNewTypeName" -> inventory name of the type
+	Notes     []string
 }
 
 // canon is consulted by ShortFunc / FieldName / CanonName.
@@ -299,7 +300,7 @@ func CanonName(o types.Object) string {
 
 // FindRenames compares the loaded packages with the inventory.
 func FindRenames(pkgs []*packages.Package) *Renames {
-	r := &Renames{RecvOld: map[string]string{}, Types: map[string]*types.TypeName{}, CanonT: map[*types.TypeName]string{}, Consts: map[string]*types.Const{}, Funcs: map[string]*types.Func{}, Fields: map[string]*types.Var{}, CanonF: map[*types.Func]string{}, CanonV: map[*types.Var]string{}, NewNames: map[string]bool{}}
+	r := &Renames{RecvOld: map[string]string{}, Types: map[string]*types.TypeName{}, CanonT: map[*types.TypeName]string{}, Consts: map[string]*types.Const{}, Funcs: map[string]*types.Func{}, Fields: map[string]*types.Var{}, CanonF: map[*types.Func]string{}, CanonV: map[*types.Var]string{}, NewNames: map[string]bool{}, CanonFull: map[*types.Func]string{}}
 	invByPkg := map[string][]invFunc{}
 	for _, f := range invFuncs {
 		invByPkg[f.pkg] = append(invByPkg[f.pkg], f)
@@ -412,6 +413,53 @@ func FindRenames(pkgs []*packages.Package) *Renames {
 				for _, m2 := range missing {
 					if recvOf(m2.name) == recvOf(m.name) && m2.sig == m.sig {
 						same++
+					}
+				}
+				// a method turned into a function of the same name that takes the former receiver as its first
+				// argument (or the reverse): same name, same remaining signature, same body
+				if len(cands) == 0 {
+					base, rcv := m.name, recvOf(m.name)
+					if rcv != "" {
+						base = m.name[len(rcv)+1:]
+					}
+					for _, e := range extra {
+						sig, _ := e.Type().(*types.Signature)
+						if sig == nil || e.Name() != base || jaccard(m.calls, fps[e]) < 0.5 {
+							continue
+						}
+						es := sigString(sig)
+						if rcv != "" && sig.Recv() == nil {
+							// method -> function: "(recv, params)(results)"
+							rest := strings.TrimPrefix(m.sig, "(")
+							for _, star := range []string{"*", ""} {
+								want := "(" + star + pk.PkgPath + "." + rcv
+								if strings.HasPrefix(rest, ")") {
+									want += rest
+								} else {
+									want += ", " + rest
+								}
+								if es == want {
+									cands = append(cands, e)
+									r.CanonFull[e.Origin()] = "(" + star + rcv + ")." + base
+								}
+							}
+						}
+						if rcv == "" && sig.Recv() != nil {
+							// function -> method: the inventory signature starts with the receiver type
+							rn := recvOf(canonRecv(funcName(e)))
+							for _, star := range []string{"*", ""} {
+								pre := "(" + star + pk.PkgPath + "." + rn
+								if strings.HasPrefix(m.sig, pre+", ") && "("+strings.TrimPrefix(m.sig, pre+", ") == es {
+									cands = append(cands, e)
+								}
+								if strings.HasPrefix(m.sig, pre+")") && "()"+strings.TrimPrefix(m.sig, pre+")") == es {
+									cands = append(cands, e)
+								}
+							}
+						}
+					}
+					if len(cands) == 1 {
+						same = 1
 					}
 				}
 				if len(cands) == 1 && same == 1 {
